@@ -172,7 +172,8 @@ TABLE = {
     "int_to_bytes_small": lambda c: bl(impl()[1].int_to_bytes(c["i"], c["w"])),
     "int_from_bytes":    lambda c: i2b(impl()[1].int_from_bytes(bytes(c["x"]))),
     "int_from_bytes_small": lambda c: want_int(impl()[1].int_from_bytes(bytes(c["x"]))),
-    "int_rt":            lambda c: i2b(impl()[1].int_from_bytes(impl()[1].int_to_bytes(b2i(c["v"]), c["w"]))),
+    "int_rt":            lambda c: i2b(impl()[1].int_from_bytes(impl()[1].int_to_bytes(b2i(c["v"]), c["w"]) if c["w"] != -1
+                                                             else impl()[1].int_to_bytes(b2i(c["v"])))),
     "add_leading_zeros": lambda c: bl(impl()[1].add_leading_zeros(bytes(c["x"]), c["n"])),
     "xor":               lambda c: bl(_xor(c["a"], c["b"])),
     "xor_prefix":        lambda c: bl(_xor(c["a"], c["b"])),
@@ -283,9 +284,9 @@ def gen_small():
         bits = i2b(v)
         for w in (-1, 0, 1, 2, 3):
             S.append({"op": "int_to_bytes", "v": bits, "w": w})
+            S.append({"op": "int_rt", "v": bits, "w": w})          # the round trip, also at the minimal width (w = -1)
             if w >= 0:
                 S.append({"op": "int_to_bytes_small", "i": v, "w": w})
-                S.append({"op": "int_rt", "v": bits, "w": w})
     for b in range(256):
         S += [{"op": "to_hex", "x": [b]}, {"op": "int_from_bytes_small", "x": [b]}, {"op": "int_from_bytes", "x": [0, b]},
               {"op": "convert", "x": [b, 255 - b], "fmt": "hex"}, {"op": "convert", "x": [b], "fmt": "int"}]
@@ -365,8 +366,7 @@ def gen_unit(u):
         need = (len(bits) + 7) // 8
         for w in sorted({-1, need, need + 1, max(need - 1, 0), 64, rnd.randint(0, 70)}):
             S.append({"op": "int_to_bytes", "v": bits, "w": w})
-            if w >= 0:
-                S.append({"op": "int_rt", "v": bits, "w": w})
+            S.append({"op": "int_rt", "v": bits, "w": w})
         sm = rnd.choice((rnd.getrandbits(31), rnd.getrandbits(16), 255, 256, 65535, 65536, 2 ** 24 - 1, 2 ** 24, 2 ** 31 - 1))
         for w in (rnd.randint(0, 6), 4):
             S.append({"op": "int_to_bytes_small", "i": sm, "w": w})
